@@ -163,7 +163,7 @@ func runC05(c *Ctx) {
 	for i := 0; i < 3+c.T.Choose(4) && c.S.Viol == nil; i++ {
 		method := []string{"RDG_OUT_DATA", "RDG_OUT_DATA", "RDG_IN_DATA", "GET", "POST"}[c.T.Choose(5)]
 		from := fmt.Sprintf("10.6.0.%d:%d", 1+i, 46000+i)
-		kind := c.T.Choose(13)
+		kind := c.T.Choose(14)
 		if w.has("kerberos") && c.T.Bool(1, 3) {
 			kind = 100 + c.T.Choose(5)
 		}
@@ -332,7 +332,10 @@ func runC05(c *Ctx) {
 				{{"alice", "correct horse", true}, {"bob", "wrong", false}},
 				{{"bob", "bobs password", true}, {"alice", "correct horse", true}},
 				{{"alice", "wrong", false}, {"alice", "also wrong", false}},
-			}[c.T.Choose(5)]
+				// the same characters, split elsewhere between name and password
+				{{"alice", "correct horse", true}, {"alicec", "orrect horse", false}},
+				{{"alice", "correct horse", true}, {"alic", "ecorrect horse", false}},
+			}[c.T.Choose(7)]
 			what = fmt.Sprintf("concurrent-basic(%s:%v, %s:%v)", pairs[0].u, pairs[0].ok, pairs[1].u, pairs[1].ok)
 			slow := fault == ""
 			if slow {
@@ -362,6 +365,32 @@ func runC05(c *Ctx) {
 				}
 			}
 			r = nil
+		case 13:
+			// the two requests of a legacy connection authenticate separately: a correct
+			// RDG_OUT_DATA request does not vouch for the RDG_IN_DATA request with its id
+			if !w.tls || !w.has("local") {
+				what = "basic-wrong(\"alice\",\"wrong\")"
+				r = w.request(method, []string{basic("alice", "wrong")}, from)
+				expectReached = open && (method == "RDG_OUT_DATA" || method == "RDG_IN_DATA")
+				break
+			}
+			w.connID = fmt.Sprintf("{C05L-%d}", w.n+1)
+			r1 := w.request("RDG_OUT_DATA", []string{basic("alice", "correct horse")}, from)
+			what = "legacy-pair(OUT with the right password, IN with " + []string{"a wrong password", "another user's right password", "no credentials"}[c.T.Choose(3)] + ")"
+			var hdrs []string
+			switch {
+			case strings.Contains(what, "a wrong"):
+				hdrs = []string{basic("alice", "wrong")}
+			case strings.Contains(what, "another"):
+				hdrs = []string{basic("mallory", "correct horse")}
+			}
+			r = w.request("RDG_IN_DATA", hdrs, from)
+			w.connID = ""
+			method = "RDG_IN_DATA"
+			expectReached = false
+			if fault == "" && !reached(r1) && c.S.Viol == nil {
+				c.S.Fail("C05", "good-credentials-refused", "auth=%v %s: the RDG_OUT_DATA request with correct credentials got %d", w.mechs, what, r1.Status)
+			}
 		case 8:
 			// valid Basic credentials whose base64 text contains the letters NTLM
 			what = "basic-correct-containing-NTLM"
